@@ -246,6 +246,12 @@ func runSigCase(ta *TestApp, seed uint64, idx int, rep *Report, profile string) 
 				b, _ := json.Marshal(map[string]string{"signature": sig, "algorithm": alg, "certificate": cert})
 				jsonStr = string(b)
 			}
+			// some messages run on a branch of the state that is dropped although the handler succeeded (a later message of the same
+			// transaction failed, or the transaction was only simulated): for the chain, and the model, nothing was stored
+			discard := !forced && rng.Chance(12)
+			if discard {
+				fieldsOK = false // the model sees a message without effect
+			}
 			var ok bool
 			func() {
 				defer func() {
@@ -255,7 +261,10 @@ func runSigCase(ta *TestApp, seed uint64, idx int, rep *Report, profile string) 
 				}()
 				c, write := ctx.CacheContext()
 				_, err := ms.StoreSignature(sdk.WrapSDKContext(c), &sigtypes.MsgStoreSignature{Creator: creator, StorageKey: skey, SignatureJSON: jsonStr})
-				if err == nil {
+				if err == nil && discard {
+					rep.Count("store.discarded_after_success")
+				}
+				if err == nil && !discard {
 					write()
 					ok = true
 				}
